@@ -2,25 +2,9 @@
 //! ffv — property-based verification harness for lipe-find-parser.
 //! See /verif/DESIGN.md.
 
-mod checks;
-mod chmod;
-mod corpus;
-mod files;
-mod fmtscan;
-mod fnmatch;
-mod interp;
-mod policy;
-mod scope;
-mod speceval;
-mod sx;
-mod gen;
-mod grammar;
-mod render;
-mod term;
-mod tree;
-mod util;
 
-use util::{Ctx, Tier};
+use ffv::{checks, util};
+use ffv::util::{Ctx, Tier};
 
 fn usage() -> ! {
     eprintln!("usage: ffv check <ID> [--tier quick|thorough] [--seed N] [--part FILE]\n       ffv replay <ID> <file>\n       ffv dump <corpus> --seed N --tier T --out FILE");
